@@ -14,6 +14,7 @@ def run_one(case, clsname):
     out = []
     for op in case["ops"]:
         ctl.begin(op.get("faults"))
+        ctl.salt = len(repr(sorted((k, repr(v)) for k, v in op.items() if k != "faults")))
         res = "ok"
         try:
             k = op["op"]
